@@ -161,7 +161,7 @@ specfn('same_event_fields', ['e'],
        'e.time == old(e.time) and e.cancelled == old(e.cancelled) and e.executed == old(e.executed) and '
        'e.paused_at == old(e.paused_at)')
 
-contract('Environment.cancel_matching_events', props=['C07', 'C06', 'C13'], args={'asset_id': 'int?'},
+contract('Environment.cancel_matching_events', props=['C07', 'C06', 'C13', 'C01'], args={'asset_id': 'int?'},
          ensures={
              'none_is_noop': 'implies(isnone(asset_id), all(same_event_fields(e) for e in refs("Event")))',
              'flags_exactly_matching':
@@ -205,7 +205,7 @@ specfn('sublist_by', ['E', 'O', 'm', 'inv'],
        'all(0 <= m[i] and m[i] < len(O) and E[i] is O[m[i]] and inv[m[i]] == i for i in range(len(E))) and '
        'all(m[i] < m[j] for i in range(len(E)) for j in range(i + 1, len(E)))')
 
-contract('Environment.pause_matching_events', props=['C07', 'C06', 'C13'], args={'asset_id': 'int?'},
+contract('Environment.pause_matching_events', props=['C07', 'C06', 'C13', 'C01'], args={'asset_id': 'int?'},
          ensures={
              'none_is_noop':
                  'implies(isnone(asset_id), all(same_event_fields(e) for e in refs("Event")) and '
@@ -286,7 +286,7 @@ specfn('resumed_fields', ['e'],
        'e.time == old(e.time) + (self._now - old(e.paused_at)) and e.cancelled == old(e.cancelled) and '
        'e.executed == old(e.executed) and e.paused_at == old(e.paused_at)')
 
-contract('Environment.unpause_matching_events', props=['C07', 'C06', 'C13'], args={'asset_id': 'int?'},
+contract('Environment.unpause_matching_events', props=['C07', 'C06', 'C13', 'C01'], args={'asset_id': 'int?'},
          ensures={
              'none_is_noop':
                  'implies(isnone(asset_id), all(same_event_fields(e) for e in old(seq(self._events))) and '
